@@ -24,6 +24,10 @@ Case kinds (model = compared with the Lean model through the named driver op; ev
  ident        the formulas of one entry of IDENT at one argument tuple; oracle only (judge_ident)
  rand         n draws of RAND(); oracle only (judge_rand)
  randbetween  n draws of RANDBETWEEN(a, b); oracle only (judge_rand)
+A fn / pv / abs case without a formula of its own may carry a `route`: `cell` = the call is written NAME(A1,B1,...) and the
+arguments are the values of the cells A1..F1, answered by the host's callCellValue listener; `ws` = the call is written over
+several lines, NAME(<LF><blank>xa<blank>,<tab>xb<blank>)<CR LF> (without arguments: <blank>NAME(<blank>)<LF>).  Same model
+request (the argument list) and same oracle as the case without route.
 """
 import decimal
 import math
@@ -44,7 +48,7 @@ FUNCTIONS = ['hotxlfp.formulas.mathtrig:%s' % n for n in _MT] + [
     'hotxlfp.helper.number:to_number']
 RULE = ('case kinds fn / abs (fn for ABS) / powint / pv / ident / rand / randbetween; arguments are bound to variables, one '
         'Parser.parse per formula (NAME(xa,xb,...) unless the case carries its own formula text: the 20 written function calls '
-        'and the written PV calls below). '
+        'and the written PV calls below; the routes cell and ws at the end of this text write the same call otherwise). '
         'Per one-argument function (21 unary ones, LOG with its default base, ABS): 44 special points '
         '(0, +-1, +-1/2, +-2, 3, 10, 100, the floats next to +-1, float multiples of pi/4 up to 2pi, +-1e-5, +-1e-300, +-1e300, '
         '1e15, 1e22, e, +-709, 690, 745, -745.13, 0.1, 0.3, logicals), 5e-324 / -5e-324 / 1e-310 where harmless (not ACOSH, '
@@ -93,9 +97,9 @@ RULE = ('case kinds fn / abs (fn for ABS) / powint / pv / ident / rand / randbet
         'round, i rounds (i = 40*scale quick, 6000 thorough), 15 fixed points for the ATAN2 angle (the origin is left out). '
         'RAND(): 4d draws; RANDBETWEEN(a,b): 17 fixed pairs (ints, equal bounds, +-10^12, integral floats, text, logicals, a > '
         'b, non-integral, non-numbers) and r seeded int pairs with b-a in {0, 1, 2, 5, 100, 10^6} (r = 10*scale quick, 800 '
-        'thorough), d draws each (d = 40 quick, 400 thorough). About 7700 cases quick (22900 at scale 5), 541000 thorough. '
+        'thorough), d draws each (d = 40 quick, 400 thorough). About 7700 cases quick (22900 at scale 5), 541000 thorough before the routes. '
         'Compared with the Lean model: fn and pv (driver op `math`, equal or <= 4 ulps apart, errors by code), abs (op `fn`: '
-        'ints exactly, floats <= 1 ulp), powint (op `math.powint`, exactly) - about 5600 quick, 273000 thorough; a case with a '
+        'ints exactly, floats <= 1 ulp), powint (op `math.powint`, exactly) - about 5600 quick, 273000 thorough before the routes; a case with a '
         'formula text is sent as the argument list it denotes (an empty slot as the blank `nil`), the text itself is not part '
         'of the request - unless an '
         'argument is text the model does not read (exponent form, non-ASCII, beyond the float range) or an int above 2^53 '
@@ -105,7 +109,17 @@ RULE = ('case kinds fn / abs (fn for ABS) / powint / pv / ident / rand / randbet
         'written ones; if PV disagreed or no name), 300 identity rounds and the guard cases with g = 400: about 41000 cases. '
         'No time budget, no shrinking, each case counts once. Non-trivial = the '
         'implementation returned a finite number (ident: every formula did; rand: at least two distinct draws; randbetween: '
-        'every draw an int and at least two distinct ones or a one-point range); distinct = distinct case dict.')
+        'every draw an int and at least two distinct ones or a one-point range); distinct = distinct case dict. '
+        'Routes (added last, over the whole list of cases in its order, index i): a fn / pv / abs case without a formula text of '
+        'its own and with at most 6 arguments is given once more with route = cell when i is divisible by 9, or when i is even '
+        'and one of its arguments (not text, not blank, not a list or error value) equals 0 - the ints and floats 0, 0.0, -0.0 '
+        'and FALSE -, and once more with route = ws when i is divisible by 11. cell: the formula is NAME(A1,B1,...) and the one '
+        'callCellValue listener of the shared parser answers the argument values for A1..F1 (setter called with the value, a '
+        'blank argument with None; another label gets no answer); the variables xa.. are set as well. ws: the formula is '
+        'NAME( LF blank xa blank , tab xb ... blank ) CR LF, without arguments blank NAME( blank ) LF. Both are judged by the '
+        'same oracle on the argument list and sent to the model as the same request as the case without route (the route is not '
+        'part of it). About 940 cell and 480 ws cases quick, 56400 and 20900 thorough; with them about 9200 cases quick (26500 '
+        'at scale 5), 618000 thorough, about 7000 quick / 349000 thorough compared with the model. search() generates no routes.')
 TRUSTED = ['L3 is not proved: libm (sin, cos, tan, asin, acos, atan, atan2, sinh, cosh, tanh, asinh, acosh, atanh, sqrt, log, '
            'pow) approximates the real functions the theorems are about; monitored by the 60-digit reference of this '
            'plugin (relative 1e-9 plus absolute 1e-12: a result below 1e-12 in magnitude is only held to the absolute bound)',
@@ -127,6 +141,11 @@ TRUSTED = ['L3 is not proved: libm (sin, cos, tan, asin, acos, atan, atan2, sinh
            'and an empty slot for a blank future value) reach the model as the argument list the generator says the text '
            'denotes: the parser\'s reading of the text (the three separators, an empty slot handed on as a blank argument) is '
            'not modelled here, it is exercised by the comparison of the result and by the annuity equation only',
+           'routes: a case with route cell or ws reaches the model as the same argument list as the case without route; that '
+           'a cell reference hands the listener\'s value to the function as a variable does (0, 0.0 and FALSE as values, not as '
+           'blanks) and that blanks, tabs, LF and CR LF between the tokens of a call change nothing is not modelled here '
+           '(C10 / C05), it is exercised by the comparison of the result and by the oracle only; the listener answers from a '
+           'table the harness refills before every evaluation (_cellvals, cleared first)',
            'PV with 1+rate < 0 and a non-integral number of periods returns a Python complex number; the model says #ERROR! '
            '(outside the statement\'s rate > -1; not generated)',
            'the runner classifies the parser\'s answer as error code / int / finite float / nan or inf / other (a logical, '
@@ -165,6 +184,10 @@ ASSUMPTIONS = ['arguments are confined to magnitudes where the true result and t
                'for smaller rates the subtraction 1-(1+rate)^periods loses accuracy (candidate finding, witness '
                'PV(1e-12,1,-100) = 100.0089 instead of 99.9999999999)',
                'an integer argument beyond 2^53 and numeric text are judged at the double they are converted to',
+               'the value of a call does not depend on the route of its arguments or on its layout: an argument that is the '
+               'value of a cell the host\'s listener answers (0, 0.0 and FALSE are values, a blank is a blank) counts as '
+               'the same argument held by a variable, and the call written over several lines with blanks, tabs, LF and CR LF '
+               'between its tokens is the same call',
                'RAND: every draw is a float in [0,1). RANDBETWEEN is judged for integer-valued bounds a <= b (ints, integral '
                'floats, integer text, logicals): every draw is an int in [a,b]; with a non-number bound every draw must be '
                'an error; a > b, non-integral and blank bounds are not judged']
